@@ -30,7 +30,7 @@ PROPS["C14"] = dict(
 PROPS["C20"] = dict(
     level="proof",
     technique="model generated from source by the translator (tag tables of network.rs / address.rs); Lean `decide +kernel` over the whole finite domain (3x3 pairs, all 256 bytes) lifted to arbitrary blobs; exhaustive differential check",
-    level_text="The model IS the tables regenerated from src/network.rs and src/util/address.rs on every run; C20_table/_injective/_network_inverse/_reject_others/_type_lookup/_cross_network are proved against Monero's literal table (Spec.tag) by kernel evaluation over every (network, type) pair and every byte value and lifted to blobs of any length. A one-sided or two-sided edit of any table entry changes Gen and makes `decide` fail. In addition the real functions are compared with model and spec on the complete domain (61 708 cases).",
+    level_text="The model IS the tables regenerated from src/network.rs and src/util/address.rs on every run; C20_table/_injective/_network_inverse/_reject_others/_type_lookup/_cross_network are proved against Monero's literal table (Spec.tag) by kernel evaluation over every (network, type) pair and every byte value and lifted to blobs of any length. A one-sided or two-sided edit of any table entry changes Gen and makes `decide` fail. C20_type_total: the type lookup equals ONE by-the-book function (Spec.addrType) on every blob; C20_decode_encode / C20_encode_decode / C20_tables_agree tie the three generated tables to each other; C20_rows_wf: the payment-id slice of every row is in range. In addition the real functions are compared with model and spec on the complete domain (61 708 cases) plus ~3 900 payload-variation / payment-id / interleaved cases, and checked in Rust against the book's literal table on every (network, first byte) with zero / all-equal / random payloads (~20 000 direct checks).",
     level_note="Trusted: Lean kernel; the translator's reading of the match arms (cross-checked by the exhaustive differential run); Spec.tag is my transcription of cryptonote_config.h.",
     design_ref="DESIGN.md §6 C20",
     rule="exhaustive enumeration of the finite domain.",
@@ -113,8 +113,8 @@ PROPS["C05"] = dict(
 PROPS["C12"] = dict(
     level="proof",
     technique="Lean 4 theorems about a model of Address::{from_bytes, as_bytes, Display, FromStr, hex, consensus} over generated tag tables, for every checksum function H and key-validity predicate; full proof that Monero base58 (model of the crate's control flow = reference) is a bijection between byte strings and accepted texts; differential check incl. every single-field corruption",
-    level_text="C12_bytes_iff: from_bytes b = some a <-> WF a and as_bytes a = b (canonical blob, exact lengths 69/77); C12_b58_dec_enc / C12_b58_enc_dec: base58 decode/encode are mutually inverse and only canonical text is accepted; C12_str_roundtrip / C12_str_canonical, consensus and hex forms, and each rejection class (unknown tag, checksum, invalid key, short, trailing) as corollaries; C12_parse_is_monero: the model parser equals the hand-written spec parser on every input. Real code vs model vs spec on ~11k (quick) cases incl. all 256 tag values, corrupted keys/checksums, truncations, extensions, alphabet/non-alphabet strings, overflowing blocks.",
-    level_note="Trusted: Lean kernel; model of base58-monero 2.1.0 and hex 0.4.3 control flow tied to the crates differentially; H = Keccak (C17) and key validity (C13) are parameters of the theorems and reference implementations in the driver. The pinned tree accepted trailing bytes: repaired by the fix commit recorded in known_findings.json.",
+    level_text="C12_bytes_iff: from_bytes b = some a <-> WF a and as_bytes a = b (canonical blob, exact lengths 69/77); C12_b58_dec_enc / C12_b58_enc_dec: base58 decode/encode are mutually inverse and only canonical text is accepted; C12_str_roundtrip / C12_str_canonical, consensus and hex forms, and each rejection class (unknown tag, checksum, invalid key, short, trailing) as corollaries; C12_parse_is_monero: the model parser equals the hand-written spec parser on every input. C12_hex_is_spec / C12_consensus_is_spec / C12_parse_hex_is_monero / C12_parse_consensus_is_monero: the hex and consensus forms equal the by-the-book forms on every input; C12_*_ed25519: the same statements instantiated with H = Keccak-256 and the model of PublicKey::from_slice (non-canonical / undecodable / negative-zero keys rejected); C12_text_length (95/106); C12_known_answer_*: two address strings from outside the project reproduced in the kernel. Real code vs model (key test = model of from_slice) vs spec (key test = RFC 8032 decoder) on ~15k (quick) cases incl. all 256 tag values, corrupted keys/checksums, truncations, extensions, alphabet/non-alphabet strings, overflowing blocks.",
+    level_note="Trusted: Lean kernel; model of base58-monero 2.1.0 and hex 0.4.3 control flow tied to the crates differentially; H = Keccak (C17) and key validity (C13) are parameters of the general theorems (instantiated in the *_ed25519 theorems) and reference implementations in the driver. The pinned tree accepted trailing bytes: repaired by the fix commit recorded in known_findings.json.",
     design_ref="DESIGN.md §6 C12",
     rule="3 networks x 3 types x random valid keys / payment ids both directions; every single-field corruption of ~50 addresses; random and adversarial base58 / hex strings.",
     assumptions=["checksum hash returns at least 4 bytes (true for Keccak-256)"],
